@@ -280,17 +280,24 @@ theorem C20_route_covers (nbr : Nat → List Nat) (len : Nat → Rat) (start : N
   obtain ⟨t, rfl⟩ := hpre
   simp
 
-/-- All four for a network given as data (what the driver evaluates), successors: on every closed network without a
-    self-successor at the start the call returns, and the returned paths are sound, guarded and cover. -/
+/-- All four for a network given as data, successors: on every closed network without a self-successor at the start
+    the loop with the failing lookups (`findSuccessorsR`, what the driver evaluates) returns normally, with the value of the
+    total loop, and the returned paths are sound, guarded and cover. -/
 theorem C20_successors (g : List Node) (start : Nat) (maxLen : Rat)
     (hc : closedNet g start = true) (hself : start ∉ succOf g start) :
-    ∃ res, findSuccessors g start maxLen = some res
+    ∃ res, findSuccessorsR g start maxLen = .ok res ∧ findSuccessors g start maxLen = some res
       ∧ (∀ q ∈ res, (∃ hd tl, q = hd :: tl ∧ hd ∈ succOf g start) ∧ Linked (succOf g) q ∧ q.Nodup ∧ start ∉ q
           ∧ ∀ j, 0 < j → j < q.length → sumLen (lenOf g) (q.take j) < maxLen)
       ∧ ∀ s ∈ succOf g start, ∃ q ∈ res, q.head? = some s := by
   obtain ⟨res, hres⟩ := C20_route_terminates (succOf g) (lenOf g) start maxLen (ids g) (closed_succ hc) (fuelFor g)
     (by simp [ids, fuelFor])
-  refine ⟨res, hres, ?_, C20_route_covers _ _ _ _ _ res hres⟩
+  have hR : findSuccessorsR g start maxLen = .ok res := by
+    have hcl : ∀ v s, s ∈ nbrFn g (·.succ) v → s ∈ ids g := by
+      rw [← succOf_eq]; exact closed_succ hc
+    unfold findSuccessorsR
+    rw [findR_eq hcl (closed_start hc), ← succOf_eq]
+    rw [hres]
+  refine ⟨res, hR, hres, ?_, C20_route_covers _ _ _ _ _ res hres⟩
   intro q hq
   obtain ⟨a, b, c, d⟩ := C20_route_sound _ _ _ _ hself _ res hres q hq
   exact ⟨a, b, c, d, C20_route_extend_guard _ _ _ _ hself _ res hres q hq⟩
@@ -298,13 +305,19 @@ theorem C20_successors (g : List Node) (start : Nat) (maxLen : Rat)
 /-- … and predecessors (the same function over the predecessor lists). -/
 theorem C20_predecessors (g : List Node) (start : Nat) (maxLen : Rat)
     (hc : closedNet g start = true) (hself : start ∉ predOf g start) :
-    ∃ res, findPredecessors g start maxLen = some res
+    ∃ res, findPredecessorsR g start maxLen = .ok res ∧ findPredecessors g start maxLen = some res
       ∧ (∀ q ∈ res, (∃ hd tl, q = hd :: tl ∧ hd ∈ predOf g start) ∧ Linked (predOf g) q ∧ q.Nodup ∧ start ∉ q
           ∧ ∀ j, 0 < j → j < q.length → sumLen (lenOf g) (q.take j) < maxLen)
       ∧ ∀ s ∈ predOf g start, ∃ q ∈ res, q.head? = some s := by
   obtain ⟨res, hres⟩ := C20_route_terminates (predOf g) (lenOf g) start maxLen (ids g) (closed_pred hc) (fuelFor g)
     (by simp [ids, fuelFor])
-  refine ⟨res, hres, ?_, C20_route_covers _ _ _ _ _ res hres⟩
+  have hR : findPredecessorsR g start maxLen = .ok res := by
+    have hcl : ∀ v s, s ∈ nbrFn g (·.pred) v → s ∈ ids g := by
+      rw [← predOf_eq]; exact closed_pred hc
+    unfold findPredecessorsR
+    rw [findR_eq hcl (closed_start hc), ← predOf_eq]
+    rw [hres]
+  refine ⟨res, hR, hres, ?_, C20_route_covers _ _ _ _ _ res hres⟩
   intro q hq
   obtain ⟨a, b, c, d⟩ := C20_route_sound _ _ _ _ hself _ res hres q hq
   exact ⟨a, b, c, d, C20_route_extend_guard _ _ _ _ hself _ res hres q hq⟩
@@ -319,5 +332,10 @@ example : findPredecessors exNet 1 1000 = some [[3, 2]] := by decide +kernel
 -- the range is reached exactly after [2] (accumulated length 1 = range): [2] is not extended
 example : findSuccessors exNet 1 1 = some [[2], [2]] := by decide +kernel
 example : findSuccessors exNet 1 2 = some [[2, 3], [2, 4]] := by decide +kernel
+example : findSuccessorsR exNet 1 1000 = .ok [[2, 3], [2, 4]] := by decide +kernel
+-- a successor id that names no lanelet: `find_lanelet_by_id` gives None, the attribute access raises
+example : findSuccessorsR [⟨1, [2], [], 1⟩, ⟨2, [9], [1], 1⟩] 1 1000 = .error .attr := by decide +kernel
+-- … but not when the range already stops the search before the dangling id is looked up
+example : findSuccessorsR [⟨1, [2], [], 1⟩, ⟨2, [9], [1], 1⟩] 1 1 = .ok [[2]] := by decide +kernel
 
 end CR.Route
